@@ -68,3 +68,31 @@ chk("C10", "model_checking", "E1",
     "stateless deviation-bounded exploration of multi-epoch runs; champion snapshot before vs population after each epoch",
     "Same execution space as C02 with start genomes that carry disabled and recurrent genes and nil traits and structural profiles that create such champions within the run; for every species whose final quota exceeds five the next generation must contain a genome genetically equal (bit for bit, id ignored) to the pre-epoch snapshot of its fittest organism.",
     _E1NOTE, "DESIGN.md section 3 C10")
+
+ENGINES.append({"name": "E2 explicit-state search over genomes (GenomeSpace)", "path": "cmd/mc/genomespace.go, c01.go, c05.go, c06.go",
+  "serves_properties": ["C01", "C05", "C06"],
+  "kind_free_text": "breadth-first closure of start genomes under all genetic operators of the real code x all their choice sequences within a deviation bound, one shared innovation record per search, states deduplicated by a canonical structural key with a stated correctness argument, per-transition oracles"})
+
+_E2NOTE = ("Bounds: 7 families of start genomes, breadth-first depth 3 (quick; 2 for the two largest) / up to 5 under a time cap reported in the evidence (thorough); operator choice sequences within 2-3 deviations of Z/M/A (1-2 for the many-draw weight/trait mutators and for crossovers); genomes reached have <= ~10 nodes / ~15 genes. "
+           "No model: every transition is a call of the real operator through the accessor overlay.")
+
+chk("C01", "model_checking", "E2+E1",
+    "explicit-state breadth-first search over genomes under all real operators, plus deviation-bounded exploration of multi-epoch runs, well-formedness evaluated on every transition",
+    "Every transition of the GenomeSpace search (13 operators incl. the three crossovers with partners from the discovered set, two innovation-record regimes for structural mutators) is checked against the literal C01 predicate plus retention of the ancestors' I/B/O nodes; crossovers are additionally run on all pairs of parents WITHOUT common ancestry (subsets of a master gene list, complete choice trees); and every organism after NewPopulation / NewPopulationRandom / ReadPopulation and after each of 6-8 epochs of the E1 runs (both executors) is checked. One genuine defect is listed as a known finding (gene-less single-point child for unaligned parents).",
+    _E2NOTE, "DESIGN.md section 3 C01")
+
+chk("C04", "model_checking", "E4xE1",
+    "bounded-exhaustive enumeration of parent pairs crossed with exhaustive / deviation-bounded enumeration of the crossover's random choices, statement checked clause by clause",
+    "Parents are all non-empty well-formed subsets of a master list of k innovations (k=5 quick, 6 thorough) containing two innovations for one link and a recurrent self-loop; all ordered pairs x enabled patterns x trait patterns x fitness orders x three methods x every choice sequence of the real mate call (complete trees for single-point and for few matching genes, else all sequences within 2-3 deviations of three policies). Each child is checked against every clause of C04 (origin and uniqueness of genes, weights, fitter-parent rule, matching genes inherited, enabled flags, node set, averaged traits, parents unmodified).",
+    "Parents share consistent numbering except for the deliberate same-link pair; hidden-node alphabet of 2; weights from the hard-float alphabet. Trusts overlay + accessors.",
+    "DESIGN.md section 3 C04")
+
+chk("C05", "model_checking", "E2",
+    "explicit-state breadth-first search over genomes; before/after relation of every mutator evaluated on every transition",
+    "On every mutator transition of the GenomeSpace search the documented effect is checked on pointer-free snapshots: add-node (exactly one enabled gene disabled, one hidden node, a->n weight 1 with the old recurrence flag, n->b old weight non-recurrent, nothing else), add-link (exactly one new gene between existing nodes, no duplicate link, no sensor target), connect-sensors (one previously unconnected sensor, one gene per non-sensor node), and weight/trait/toggle/re-enable mutators (structure unchanged, toggle keeps a node's last enabled outgoing gene, re-enable touches only the first disabled gene). Structural mutators run under a matching and an empty innovation record.",
+    _E2NOTE, "DESIGN.md section 3 C05")
+
+chk("C06", "model_checking", "E2+E1",
+    "explicit-state search supplies the genomes; duplicate + pointer walk + mutate-one-side-compare-the-other under deviation-bounded enumeration of the mutators' choices; E1 over spawning",
+    "Every GenomeSpace state plus corner genomes (mostly disabled, no trait references, non-default activations, modular with enabled/disabled module) is duplicated: the copy must be bit-equal (id excepted), share no pointer with the original (full object-graph walk), and mutating either side with each of 9 mutators (every choice sequence within the bound) must leave the other side's snapshot unchanged. NewPopulation from 5 start genomes, sizes 1-4, all draw sequences within the bound: spawned genomes differ from the start genome only in weights, mutation number mirrors weight.",
+    _E2NOTE, "DESIGN.md section 3 C06")
